@@ -129,6 +129,18 @@ func genC11(t *testing.T) {
 					sc = append(sc, base[pos:]...)
 					run(&caseT{Stage: "Emit", Mode: "pure", Cap: cp, Tick: tk, FSeed: uint64(k), Script: sc, Comment: "back-pressure"})
 				}
+				// the same with the consumer resuming in the middle of a period (off the tick grid), then keeping up
+				if tk >= 1000 {
+					mid := fmt.Sprintf("A%d", tk/2+tk/5)
+					sc := append(append([]string{}, idle...), mid)
+					for j := 0; j < T+cp+2; j++ {
+						sc = append(sc, "R0")
+					}
+					sc = append(sc, "D0!")
+					sc = append(sc, rep(A, 3)...)
+					sc = append(sc, "X")
+					run(&caseT{Stage: "Emit", Mode: "pure", Cap: cp, Tick: tk, FSeed: uint64(k), Script: sc, Comment: "back-pressure, resume mid-period"})
+				}
 				// Unfold: receives one at a time, in bursts, cancel at every position
 				if tk == 1 {
 					ub := rep("R0", T+cp+1)
@@ -168,6 +180,9 @@ func genC11(t *testing.T) {
 		} else {
 			c.Stage = "Emit"
 			seqs := [][]string{rep(A, T), rep("R0", r.IntN(T+2)), {"X"}}
+			if tk >= 1000 && r.IntN(2) == 0 {
+				seqs = append(seqs, rep(fmt.Sprintf("A%d", tk/3+1), r.IntN(4))) // off-grid clock steps
+			}
 			if r.IntN(2) == 0 {
 				c.Mode = "try"
 				for j := 0; j < T+4; j++ {
